@@ -120,6 +120,7 @@ func c03Structural(r *mon.Run, t *mon.Tally, wl string, idx int, tree *gen.Expr)
 		{"no-space", gen.JoinTight(minToks)},
 		{"mixed whitespace", gen.JoinWS(minToks, rng)},
 		{"redundant parentheses", gen.Spell(addRedundantParens(tree, rng))},
+		{"quoted identifiers", strings.Join(gen.TokensQuoted(tree, gen.Min), " ")},
 	}
 	var want string
 	for k, sp := range spellings {
@@ -162,7 +163,7 @@ func c03Structural(r *mon.Run, t *mon.Tally, wl string, idx int, tree *gen.Expr)
 }
 
 func c03(r *mon.Run) {
-	r.Rule = "structural layer (hook VerifSexpr): every operator tree with <= 3 operators (quick; thorough adds a seeded sample of 4-operator trees) over {| || && == < ! .f [0] [*] [] [?c] .* [1:] .[..] .{..} call &-in-call} and atoms {a b @ `1`} is spelled minimally, fully parenthesised, without spaces, with mixed whitespace and with redundant parentheses; all five parses must be the same AST (equal parse => equal result on every document). " +
+	r.Rule = "structural layer (hook VerifSexpr): every operator tree with <= 3 operators (quick; thorough adds a seeded sample of 4-operator trees) over {| || && == < ! .f [0] [*] [] [?c] .* [1:] .[..] .{..} call &-in-call} and atoms {a b @ `1`} is spelled minimally, fully parenthesised, without spaces, with mixed whitespace, with redundant parentheses and with every identifier written as a quoted identifier; all six parses must be the same AST (equal parse => equal result on every document). " +
 		"semantic layer: chains whose grouping parentheses cannot pin (projection scope) are evaluated on scope-discriminating documents against ref.RefSet. Non-trivial = distinct trees whose minimal spelling has >= 2 operator kinds and no parentheses (only the table decides)."
 	r.Exhaustive = true
 	r.Floor = 2000
